@@ -139,7 +139,7 @@ def run(ctx):
                 inner = res[3][0]
                 tv = None
                 for cnd in conds:
-                    if cnd[0] == "eq" and cnd[1][0] == "discr":
+                    if cnd[0] == "eq" and cnd[1][0] == "discr" and cnd[1][1][0] != "call":   # (the TYPE matched on, not the outcome of a nested parse)
                         tv = cnd[2]
                 if tv is not None and inner[0] == "variant":
                     arms[tv] = inner
